@@ -218,6 +218,53 @@ func c05Binary(t *testing.T, rec *ev.Recorder, n int, seed int) {
 	rec.Case("binary script of operator/operand products", true, "binary-file-mode")
 }
 
+// c05Extremes is a deterministic family in process: every operator, index and
+// slice form over operands at the edges of the integer and float ranges.
+func c05Extremes(t *testing.T, rec *ev.Recorder) {
+	pre := []string{"ma = 9223372036854775807", "mi = 0 - ma - 1", "nan = 0.0 / 0.0", "inf = 1.0 / 0.0", "ninf = 0.0 - inf", "s = \"abc\"", "big = aton(\"1e308\")", "l = [1, 2, 3]", "e = []", "es = \"\""}
+	ints := []string{"0", "1", "2", "3", "4", "(0 - 1)", "(0 - 2)", "ma", "mi", "(ma - 1)", "(mi + 1)", "(1 << 62)", "63", "64", "65"}
+	nums := append(append([]string{}, ints...), "0.5", "big", "(0.0 - big)", "nan", "inf", "ninf", "(0.0 - 0.0)")
+	stmts := []string{}
+	for _, c := range []string{"s", "l", "e", "es", "\"語語\""} {
+		for _, a := range ints {
+			stmts = append(stmts, c+"["+a+"]")
+			for _, b := range ints {
+				stmts = append(stmts, c+"["+a+":"+b+"]")
+			}
+		}
+	}
+	for _, op := range gen.AllBinOps {
+		for _, a := range nums {
+			for _, b := range nums {
+				stmts = append(stmts, a+" "+op+" "+b)
+			}
+		}
+	}
+	for _, a := range nums {
+		stmts = append(stmts, "-"+a, "~"+a, "!"+a, "#"+a, "toa("+a+")", "aton(toa("+a+"))", "for i <- fromto("+a+", "+a+" + 2) i", "for i <- fromto(0 - 1, "+a+") return i")
+	}
+	// one session per 200 statements: a failure names its statement
+	for i := 0; i < len(stmts); i += 200 {
+		chunk := append(append([]string{}, pre...), stmts[i:min(i+200, len(stmts))]...)
+		s := run.NewSession()
+		for j, src := range chunk {
+			vr := s.Run(src, false, 2000000)
+			switch {
+			case vr.Panic != "":
+				ev.Repro("C05", "session", map[string]any{"stmts": append(append([]string{}, pre...), src), "discard": false})
+				t.Fatalf("extreme operands, statement %d (%s): %s\n%s", i+j, src, firstLine(vr.Panic), stackTop(vr.Stack))
+			case vr.ParseErr != nil:
+				t.Fatalf("harness: %q does not parse: %v", src, vr.ParseErr)
+			case vr.Err != "" && !documentedError(vr.Err):
+				ev.Repro("C05", "session", map[string]any{"stmts": append(append([]string{}, pre...), src), "discard": false})
+				t.Fatalf("extreme operands, statement %d (%s): undocumented error %q", i+j, src, vr.Err)
+			}
+		}
+	}
+	rec.Count("extreme_operand_statements", len(stmts))
+	rec.Case("operators, indices and slices over extreme operands", true, "extremes")
+}
+
 func lastLines(s string, n int) string {
 	ls := strings.Split(strings.TrimRight(s, "\n"), "\n")
 	if len(ls) > n {
@@ -261,6 +308,9 @@ func TestC05(t *testing.T) {
 	defer finish(t, rec)
 	if os.Getenv("VERIF_SHARD") == "" || os.Getenv("VERIF_SHARD") == "0" {
 		c05Binary(t, rec, 400*tierScale(), envInt("VERIF_SEED", 1))
+	}
+	if os.Getenv("VERIF_SHARD") == "" || os.Getenv("VERIF_SHARD") == "0" {
+		c05Extremes(t, rec)
 	}
 	rapid.Check(t, c05Prop(rec))
 }
